@@ -44,7 +44,7 @@ def bad_operator(inputs, value):
 
 
 def run(ctx: Ctx):
-  for r in (r1, r2, r3, r4, r8, r9, r10, r13, r15, r16, r18, r19, r20, r21):
+  for r in (r1, r2, r3, r4, r8, r9, r10, r13, r15, r16, r18, r19, r20, r21, r23):
     ctx.guard(r)
   from mlmverif.props import c18, c19
   from mlmverif.props import c18 as _c18
@@ -921,11 +921,38 @@ def r21(ctx: Ctx):
   ctx.floor(rule, 2, n)
 
 
+def r23(ctx: Ctx):
+  rule = 'R-C08-23'
+  ctx.rule(rule, '"route data exactly as a reference interpreter": whether a function returned SEVERAL values is decided with'
+           ' isinstance(<outputs>, tuple) — a named tuple IS a tuple of outputs and is spread over the output keys. tree_fns.py'
+           ' contains no exact-type test against tuple (`type(x) is tuple` / `is not tuple`): a function returning a named'
+           ' tuple for two output keys would be wrapped as ONE output and fail the strict pairing at run time')
+  mi = ctx.repo.module(TF)
+  fns = list(mi.functions.values()) + [m_ for c in mi.classes.values() for m_ in c.methods.values()]
+  n = 0
+  for fi in fns:
+    iso = [c for c in ast.walk(fi.node) if isinstance(c, ast.Call) and unparse(c.func) == 'isinstance' and len(c.args) == 2
+           and any(isinstance(y, ast.Name) and y.id == 'tuple' for y in ast.walk(c.args[1]))]
+    exact = [c for c in ast.walk(fi.node) if isinstance(c, ast.Compare) and isinstance(c.left, ast.Call) and unparse(c.left.func) == 'type'
+             and any(isinstance(o, (ast.Is, ast.IsNot, ast.Eq, ast.NotEq)) for o in c.ops)
+             and any(isinstance(x, ast.Name) and x.id == 'tuple' for x in c.comparators)]
+    for c in iso:
+      n += 1
+      ctx.ok(rule, fi, f'{fi.qualname}: `{unparse(c)[:40]}` includes tuple subclasses', c)
+    for c in exact:
+      n += 1
+      ctx.fail(rule, fi, f'{fi.qualname}: tuple-ness is tested with isinstance',
+               f'`{unparse(c)}` is an exact-type test: a named tuple returned by the function is not recognised as several outputs', node=c)
+  ctx.floor(rule, 2, n)
+
+
 from mlmverif.selfcheck import B, OK  # noqa: E402
 
 _F = 'chainables/tree_fns.py'
 _T = 'chainables/transform.py'
 VARIANTS = [
+    B('multiple-outputs-only-for-plain-tuples', 'chainables/tree_fns.py',
+      "    if not isinstance(outputs, tuple):\n      outputs = (outputs,)", "    if type(outputs) is not tuple:\n      outputs = (outputs,)", 'R-C08-23'),
     B('tuple-record-rebuilt-with-its-own-type', 'chainables/tree.py',
       "        container_maker = tuple\n", "        container_maker = type(tree)\n", 'R-C08-22'),
     OK('batch-size-guard-de-morgan', 'chainables/tree_fns.py',
